@@ -56,3 +56,4 @@ def run(chk):
     chk.require('send_failed', 200)
     chk.require('recv_with_data', n // 2)
     chk.min_cases = n
+    chk.coverage(build('cov'), 100)       # thorough tier: gcov line coverage of the anchored sources under this workload
